@@ -346,7 +346,7 @@ func verifC05Header(maxItems, leafMax int) {
 //verif:harness id=C05 tier=quick,thorough witness=end bounds="header parameters: style simple x explode x shape (primitive, array of 1-2, object of 1-2 properties) x leaf type x every printable-ASCII leaf text of 1-2 bytes without ',' '='; parameter name spelled X-P / x-p / X-p in the document; header given as http.Header (no wire parsing)"
 func verifH_C05_header() { verifC05Header(2, 2) }
 
-//verif:harness id=C05 tier=quick,thorough witness=end bounds="presence: path/query/header parameter absent, present-empty or present (integer leaf text of 1-2 bytes) x required x ValidateParameter: absent+required => ErrInvalidRequired, absent+optional => nil, present => verdict equals VisitJSON of the decoded value (schema integer with symbolic minimum)"
+//verif:harness id=C05 tier=quick,thorough witness=end bounds="presence: path/query/header parameter absent, present-empty or present (integer leaf text of 1-2 bytes) x required x schema default present or not x default-setting on or off x ValidateParameter: absent+required => ErrInvalidRequired (also when the schema has a default), absent+optional => nil, present => verdict equals VisitJSON of the decoded value (schema integer with symbolic minimum)"
 func verifH_C05_presence() {
 	in := []string{"path", "query", "header"}[verifChoose("in", 3)]
 	required := verifChoose("required", 2) == 1
@@ -356,9 +356,15 @@ func verifH_C05_presence() {
 	min := verifNondetFloat64("min")
 	verifAssume(min == min)
 	schema := &openapi3.SchemaRef{Value: &openapi3.Schema{Type: &openapi3.Types{"integer"}, Min: &min}}
+	// a schema default does not make a required parameter optional
+	hasDefault := verifChoose("default", 2) == 1
+	if hasDefault {
+		schema.Value.Default = 7.0
+	}
+	skipDefaults := verifChoose("skipDefaults", 2) == 1
 	name := "P"
 	param := &openapi3.Parameter{Name: name, In: in, Required: required, Schema: schema}
-	input := &RequestValidationInput{Request: &http.Request{Header: http.Header{}, URL: &url.URL{}}, QueryParams: url.Values{}, PathParams: map[string]string{}, Options: &Options{SkipSettingDefaults: true}}
+	input := &RequestValidationInput{Request: &http.Request{Header: http.Header{}, URL: &url.URL{}}, QueryParams: url.Values{}, PathParams: map[string]string{}, Options: &Options{SkipSettingDefaults: skipDefaults}}
 	presence := verifChoose("presence", 3) // 0 absent, 1 empty, 2 present
 	text := ""
 	if presence == 2 {
@@ -383,6 +389,8 @@ func verifH_C05_presence() {
 		if required {
 			re, ok := err.(*RequestError)
 			verifAssert(ok && re.Err == ErrInvalidRequired, "C05 presence: an absent required parameter is ErrInvalidRequired")
+		} else if hasDefault && !skipDefaults {
+			verifAssert((err == nil) == (7 >= min), "C05 presence: an absent optional parameter with a default is judged by its default")
 		} else {
 			verifAssert(err == nil, "C05 presence: an absent optional parameter is accepted")
 		}
